@@ -68,28 +68,33 @@ def evalPostSync (o : Oracle) (kw : Kwargs) (c : Contract) : Res Bool := do
   | .coro _ => Res.raise (.valueErr (.coroCondOnSync c.id) none)
   | a => judge c a
 
-/-- the inner `for contract in group` loop -/
-def checkGroupSync (o : Oracle) (kw : Kwargs) : List Contract → Res (Option Raised)
+/-- the inner `for contract in group` loop: the violated contract of the group, if any -/
+def checkGroupSync (o : Oracle) (kw : Kwargs) : List Contract → Res (Option Contract)
   | [] => pure none
   | c :: cs => do
       let notCheck ← evalPreSync o kw c
-      if notCheck then do
-        let e ← createViolationError o c kw
-        pure (some e)
+      if notCheck then pure (some c)
       else checkGroupSync o kw cs
 
-/-- the outer `for group in preconditions` loop; `last` is the variable `exception` -/
-def assertPreSyncAux (o : Oracle) (kw : Kwargs) (last : Option Raised) :
-    List (List Contract) → Res (Option Raised)
+/-- the outer `for group in preconditions` loop; `last` is the variable `violated_contract` -/
+def assertPreSyncAux (o : Oracle) (kw : Kwargs) (last : Option Contract) :
+    List (List Contract) → Res (Option Contract)
   | [] => pure last
   | g :: gs => do
       let r ← checkGroupSync o kw g
       match r with
       | none => pure none
-      | some e => assertPreSyncAux o kw (some e) gs
+      | some c => assertPreSyncAux o kw (some c) gs
 
-def assertPreSync (o : Oracle) (kw : Kwargs) (groups : List (List Contract)) : Res (Option Raised) :=
-  assertPreSyncAux o kw none groups
+/-- `_assert_preconditions`: the error is built once, after the loops,
+for the violated contract of the last group tried -/
+def assertPreSync (o : Oracle) (kw : Kwargs) (groups : List (List Contract)) : Res (Option Raised) := do
+  let v ← assertPreSyncAux o kw none groups
+  match v with
+  | some c => do
+      let e ← createViolationError o c kw
+      pure (some e)
+  | none => pure none
 
 def assertPostSync (o : Oracle) (kw : Kwargs) : List Contract → Res (Option Raised)
   | [] => pure none
@@ -133,10 +138,10 @@ def runBody (o : Oracle) (call : Call) : Res Id := do
   | .ret v => pure v
   | .raises e => Res.raise (.user e)
 
-/-- `if violation_error: raise violation_error` -/
-def raiseIfTruthy (v : Option Raised) : Res Unit :=
+/-- `if violation_error is not None: raise violation_error` -/
+def raiseIfSome (v : Option Raised) : Res Unit :=
   match v with
-  | some e => if e.truthy then Res.raise e else pure ()
+  | some e => Res.raise e
   | none => pure ()
 
 /-- the checked path of the sync wrapper (lines 799-846) -/
@@ -146,7 +151,7 @@ def checkedSync (ck : Checker) (o : Oracle) (call : Call) : Res Id := do
   | some e => Res.raise e
   | none => do
   let v ← assertPreSync o kw ck.pre
-  raiseIfTruthy v
+  raiseIfSome v
   let kw ← (if !ck.posts.isEmpty && !ck.snaps.isEmpty then do
               let old ← captureOldSync o kw [] ck.snaps
               pure (kw.set "OLD" (.old old))
@@ -154,7 +159,7 @@ def checkedSync (ck : Checker) (o : Oracle) (call : Call) : Res Id := do
   let r ← runBody o call
   if !ck.posts.isEmpty then do
     let v ← assertPostSync o (kw.set "result" (.obj r)) ck.posts
-    raiseIfTruthy v
+    raiseIfSome v
     pure r
   else pure r
 
@@ -177,26 +182,33 @@ def evalCondAsync (o : Oracle) (kw : Kwargs) (c : Contract) : Res Bool := do
     | .coro inner => do Res.emit (.awaitCond c.id); judge c inner
     | a => judge c a
 
-def checkGroupAsync (o : Oracle) (kw : Kwargs) : List Contract → Res (Option Raised)
+
+def checkGroupAsync (o : Oracle) (kw : Kwargs) : List Contract → Res (Option Contract)
   | [] => pure none
   | c :: cs => do
       let notCheck ← evalCondAsync o kw c
-      if notCheck then do
-        let e ← createViolationError o c kw
-        pure (some e)
+      if notCheck then pure (some c)
       else checkGroupAsync o kw cs
 
-def assertPreAsyncAux (o : Oracle) (kw : Kwargs) (last : Option Raised) :
-    List (List Contract) → Res (Option Raised)
+/-- the outer `for group in preconditions` loop; `last` is the variable `violated_contract` -/
+def assertPreAsyncAux (o : Oracle) (kw : Kwargs) (last : Option Contract) :
+    List (List Contract) → Res (Option Contract)
   | [] => pure last
   | g :: gs => do
       let r ← checkGroupAsync o kw g
       match r with
       | none => pure none
-      | some e => assertPreAsyncAux o kw (some e) gs
+      | some c => assertPreAsyncAux o kw (some c) gs
 
-def assertPreAsync (o : Oracle) (kw : Kwargs) (groups : List (List Contract)) : Res (Option Raised) :=
-  assertPreAsyncAux o kw none groups
+/-- `_assert_preconditions_async`: the error is built once, after the loops,
+for the violated contract of the last group tried -/
+def assertPreAsync (o : Oracle) (kw : Kwargs) (groups : List (List Contract)) : Res (Option Raised) := do
+  let v ← assertPreAsyncAux o kw none groups
+  match v with
+  | some c => do
+      let e ← createViolationError o c kw
+      pure (some e)
+  | none => pure none
 
 def assertPostAsync (o : Oracle) (kw : Kwargs) : List Contract → Res (Option Raised)
   | [] => pure none
@@ -228,7 +240,7 @@ def checkedAsync (ck : Checker) (o : Oracle) (call : Call) : Res Id := do
   | some e => Res.raise e
   | none => do
   let v ← assertPreAsync o kw ck.pre
-  raiseIfTruthy v
+  raiseIfSome v
   let kw ← (if !ck.posts.isEmpty && !ck.snaps.isEmpty then do
               let old ← captureOldAsync o kw [] ck.snaps
               pure (kw.set "OLD" (.old old))
@@ -236,7 +248,7 @@ def checkedAsync (ck : Checker) (o : Oracle) (call : Call) : Res Id := do
   let r ← runBody o call
   if !ck.posts.isEmpty then do
     let v ← assertPostAsync o (kw.set "result" (.obj r)) ck.posts
-    raiseIfTruthy v
+    raiseIfSome v
     pure r
   else pure r
 
